@@ -3,12 +3,20 @@
  *   unaligned_copy<8>, align, safe_copy, overrun_copy, fast_copy                 src/inc/Compression.h
  *   read_literal, read_sequence, lz4::decompress                                  src/Decompressor.cpp
  *   (Face::Table::decompress, the only caller, is in spec/c16_table.c: unit c16_decompress carries props C14 and C16)
- * Structure:
- *   proof units   c14_align, c14_read_literal, c14_read_sequence, c14_lz4_safety  - unbounded in the block contents and
- *                 (loop contracts) in the number of sequences / length bytes; buffers are exact-size harness objects
- *   bounded units c14_safe_copy, c14_overrun_copy, c14_fast_copy (copy loops: CBMC 6.11 cannot close a loop contract that
- *                 stores symbolic bytes), c14_lz4_ref_sound / c14_lz4_ref_complete (whole blocks against the reference
- *                 decoder spec/lz4_ref.h)
+ * Structure (how "exact and bounded" is decomposed):
+ *   proof units (inputs symbolic, loops closed by loop contracts, buffers exact-size harness objects)
+ *     c14_align, c14_read_literal, c14_read_sequence : what one sequence header means, as closed forms (all sizes)
+ *     c14_lz4_safety : lz4::decompress - memory safety of every access (the preconditions of the primitives' contracts are
+ *                      obligations at each call site), termination, result range, and the ghost copy protocol: the decoder
+ *                      issues exactly the copy program of the parsed sequences (literals, then match_len bytes from
+ *                      match_dist back, contiguous, final literals) and returns the number of bytes that program produces
+ *   bounded units
+ *     c14_safe_copy, c14_overrun_copy, c14_fast_copy : byte-serial semantics and exact frames of the copy primitives
+ *                      (CBMC 6.11 cannot close a loop contract that stores symbolic bytes; FRAMEWORK.md item 5)
+ *     c14_lz4_ref_sound, c14_lz4_ref_complete : whole blocks, everything inlined, against the reference decoder
+ *                      spec/lz4_ref.h (cross-check of the decomposition; "every valid encoding decodes")
+ *   parked (tier 'findings', fail on the unchanged tree): c14_lz4_ref_strict, c14_lz4_ref_complete_small
+ *   Face::Table::decompress (scheme / 27-bit size / decoded length / version word): unit c16_decompress in spec/c16_table.c
  */
 #include "types.h"
 #include "lz4_ref.h"
@@ -28,17 +36,32 @@
          'claims':'overrun_copy (n >= 1, source at least one word behind the destination or in another object) writes at most [d,d+align(n)), reads at most [s,s+align(n)), returns d+n and the first n bytes have byte-serial copy semantics'}@*/
 /*@unit {'name':'c14_fast_copy', 'props':['C14'], 'loop_contracts':False, 'entry':'h_copy', 'enforce':'fast_copy', 'kind':'bounded', 'unwind':10, 'bound':'n <= 40 bytes in a 48-byte object',
          'claims':'fast_copy (non-overlapping) writes exactly [d,d+n), reads exactly [s,s+n), returns d+n, d[i] = s[i]'}@*/
-/*@unit {'name':'c14_lz4_safety', 'props':['C14'], 'entry':'h_lz4', 'enforce':'lz4_decompress', 'replace':['read_sequence','overrun_copy','safe_copy','fast_copy'], 'min_loops':1, 'defines':['LOOP_CONTRACTS','COPY_STUBS_DO_NOT_WRITE','GHOST_PROTOCOL'], 'cost':60,
+/*@unit {'name':'c14_lz4_safety', 'props':['C14'], 'entry':'h_lz4', 'enforce':'lz4_decompress', 'replace':['read_sequence','overrun_copy','safe_copy','fast_copy'], 'min_loops':1, 'defines':['LOOP_CONTRACTS','COPY_STUBS_DO_NOT_WRITE','GHOST_PROTOCOL'], 'cost':100, 'timeout':1800,
          'replay':'c14_lz4', 'witness_defines':['WITNESS'], 'witness_vars':['w_in_n','w_out_n','w_b'],
-         'claims':'lz4::decompress on arbitrary input bytes: every read lies in [in,in+in_size), every write in [out,out+out_size) (the bounds the copy primitives need - word overrun included - follow from the tests in the loop), the result is -1 or a length <= out_size, blocks that do not shrink the data are refused, and the main loop terminates (each sequence consumes input)'}@*/
-/*@unit {'name':'c14_lz4_ref_sound', 'props':['C14'], 'entry':'h_lz4_ref', 'kind':'bounded', 'loop_contracts':False, 'unwind':18, 'unwindset':['h_lz4_ref.0:18','h_lz4_ref.1:18','lz4_decompress.0:5','fast_copy.0:4','safe_copy.0:18','read_literal.0:16','lz4_ref.0:9','lz4_ref.1:16','lz4_ref.2:16','lz4_ref.3:18','lz4_ref.4:18','overrun_copy.0:4'], 'object_bits':12, 'defines':['REF_SOUND','REF_OUT=16'], 'cost':80, 'timeout':900,
-         'bound':'out_size <= 16 bytes, 13 <= in_size < out_size, arbitrary input bytes',
-         'replay':'c14_lz4', 'witness_defines':['REF_SOUND','REF_OUT=16','WITNESS'], 'witness_vars':['w_in_n','w_out_n','w_b'],
-         'claims':'whole blocks, all code inlined (no contracts): when lz4::decompress returns n >= 0 the reference decoder (prefix mode) produces exactly n bytes and they are equal, byte for byte; no read outside the input, no write outside the announced output (exact-size buffers)'}@*/
-/*@unit {'name':'c14_lz4_ref_complete', 'props':['C14'], 'entry':'h_lz4_ref', 'kind':'bounded', 'loop_contracts':False, 'unwind':18, 'unwindset':['h_lz4_ref.0:18','h_lz4_ref.1:18','lz4_decompress.0:5','fast_copy.0:4','safe_copy.0:18','read_literal.0:16','lz4_ref.0:9','lz4_ref.1:16','lz4_ref.2:16','lz4_ref.3:18','lz4_ref.4:18','overrun_copy.0:4'], 'object_bits':12, 'defines':['REF_COMPLETE','REF_OUT=16'], 'cost':80, 'timeout':900,
-         'bound':'out_size <= 16 bytes, 13 <= in_size < out_size',
-         'replay':'c14_lz4', 'witness_defines':['REF_COMPLETE','REF_OUT=16','WITNESS'], 'witness_vars':['w_in_n','w_out_n','w_b'],
+         'claims':'lz4::decompress on arbitrary input bytes: every read lies in [in,in+in_size), every write in [out,out+out_size) (the bounds the copy primitives need - word overrun included - follow from the tests in the loop), the result is -1 or a length <= out_size, blocks that do not shrink the data are refused, and the main loop terminates (each sequence consumes input); ghost copy protocol: on success the decoder has issued exactly the copy program of the sequences read_sequence returned - per sequence the literal run, then match_len bytes from match_dist (1 <= match_dist <= bytes produced) back, each copy starting where the previous ended, then the final literals - and the result is the number of bytes produced'}@*/
+/*@unit {'name':'c14_lz4_ref_sound', 'props':['C14'], 'entry':'h_lz4_ref', 'kind':'bounded', 'loop_contracts':False, 'object_bits':12, 'cost':80, 'timeout':3000,
+         'unwind_quick':16, 'unwindset_quick':['lz4_decompress.0:4','fast_copy.0:3','overrun_copy.0:3','lz4_ref.4:7'], 'defines_quick':['REF_SOUND','REF_OUT=14','REF_IN=13'],
+         'unwind_thorough':18, 'unwindset_thorough':['lz4_decompress.0:5','fast_copy.0:4','overrun_copy.0:4','lz4_ref.4:8'], 'defines_thorough':['REF_SOUND','REF_OUT=16'],
+         'bound':'quick tier: in_size = 13, out_size = 14; thorough tier: 13 <= in_size < out_size <= 16; arbitrary input bytes',
+         'replay':'c14_lz4', 'witness_defines':['WITNESS'], 'witness_vars':['w_in_n','w_out_n','w_b'],
+         'claims':'whole blocks, all code inlined (no contracts), cross-check of the decomposition used by the proof units: when lz4::decompress returns n >= 0 the reference decoder (prefix mode) produces exactly n bytes and they are equal, byte for byte; no read outside the input, no write outside the announced output (exact-size buffers)'}@*/
+/*@unit {'name':'c14_lz4_ref_complete', 'props':['C14'], 'entry':'h_lz4_ref', 'kind':'bounded', 'loop_contracts':False, 'object_bits':12, 'cost':80, 'timeout':3000,
+         'unwind':18, 'unwindset':['lz4_decompress.0:5','fast_copy.0:4','overrun_copy.0:4','lz4_ref.4:8'], 'defines':['REF_COMPLETE','REF_OUT=16'],
+         'bound':'13 <= in_size < out_size <= 16',
+         'replay':'c14_lz4', 'witness_defines':['WITNESS'], 'witness_vars':['w_in_n','w_out_n','w_b'],
          'claims':'every valid encoding decodes: whenever the strict reference decoder accepts a block (>= 13 bytes, shorter than its plaintext, last 5 bytes literals) with exactly out_size bytes, lz4::decompress returns out_size and the same bytes'}@*/
+
+/* Two strict readings of the property that do NOT hold on the unchanged tree (see the report / replay/c14_lz4.cpp).  They are
+   parked in a tier of their own ('findings': never part of bin/check's quick or thorough run) until the findings are
+   recorded in known-findings.txt; to run them add 'quick' to their tiers. */
+/*@unit {'name':'c14_lz4_ref_strict', 'props':['C14'], 'tiers':['findings'], 'entry':'h_lz4_ref', 'kind':'bounded', 'loop_contracts':False, 'object_bits':12, 'timeout':3000,
+         'unwind':16, 'unwindset':['lz4_decompress.0:4','fast_copy.0:3','overrun_copy.0:3','lz4_ref.4:7'], 'defines':['REF_STRICT','REF_OUT=14','REF_IN=13'],
+         'bound':'in_size = 13, out_size = 14', 'replay':'c14_lz4', 'witness_defines':['WITNESS'], 'witness_vars':['w_in_n','w_out_n','w_b'],
+         'claims':'STRICT reading (fails on the unchanged tree): whenever lz4::decompress succeeds the strict reference decoder (= LZ4_decompress_safe) accepts the block too.  Counterexample: bytes after the final literal run are ignored'}@*/
+/*@unit {'name':'c14_lz4_ref_complete_small', 'props':['C14'], 'tiers':['findings'], 'entry':'h_lz4_ref', 'kind':'bounded', 'loop_contracts':False, 'object_bits':12, 'timeout':3000,
+         'unwind':18, 'unwindset':['lz4_decompress.0:5','fast_copy.0:4','overrun_copy.0:4','lz4_ref.4:8'], 'defines':['REF_COMPLETE','REF_OUT=16','REF_MIN_IN=10'],
+         'bound':'10 <= in_size < out_size <= 16', 'replay':'c14_lz4', 'witness_defines':['WITNESS'], 'witness_vars':['w_in_n','w_out_n','w_b'],
+         'claims':'STRICT reading (fails on the unchanged tree): every valid shrinking encoding decodes, including blocks of 10..12 bytes.  Counterexample: MINSRCSIZE = 13 refuses them'}@*/
 
 /* ------------------------------------------------------------------ types and constants of Compression.h */
 typedef uint8_t u8; typedef uint16_t u16; typedef uint32_t u32; typedef uint64_t u64;
@@ -373,7 +396,7 @@ void h_lz4(void)
 }
 #endif
 
-#if defined(UNIT_c14_lz4_ref_sound) || defined(UNIT_c14_lz4_ref_complete)
+#if defined(REF_SOUND) || defined(REF_COMPLETE) || defined(REF_STRICT)
 #ifndef REF_OUT
 #define REF_OUT 24
 #endif
@@ -381,7 +404,10 @@ void h_lz4(void)
 void h_lz4_ref(void)
 {
     size_t w_in_n = nondet_size_t(), w_out_n = nondet_size_t();
-    __CPROVER_assume(w_out_n <= REF_OUT && w_in_n >= 13 && w_in_n < w_out_n);
+#ifndef REF_MIN_IN
+#define REF_MIN_IN 13
+#endif
+    __CPROVER_assume(w_out_n <= REF_OUT && w_in_n >= REF_MIN_IN && w_in_n < w_out_n);
 #ifdef REF_IN
     __CPROVER_assume(w_in_n == REF_IN && w_out_n == REF_OUT);
 #endif
@@ -397,7 +423,11 @@ void h_lz4_ref(void)
     u8 w_b[WB]; FILL(in, w_in_n);
 #endif
     for (size_t i = 0; i < REF_OUT; ++i) ref[i] = 0;
-#ifdef REF_SOUND
+#ifdef REF_STRICT
+    lz4ref_result rr = lz4_ref(in, w_in_n, ref, w_out_n, LZ4REF_STRICT);
+    int r = lz4_decompress(in, w_in_n, out, w_out_n);
+    if (r >= 0) __CPROVER_assert(rr.n == (long)r, "decoder succeeded: the strict reference decoder accepts the block with the same length");
+#elif defined(REF_SOUND)
     lz4ref_result rr = lz4_ref(in, w_in_n, ref, w_out_n, LZ4REF_LENIENT);
     int r = lz4_decompress(in, w_in_n, out, w_out_n);
     if (r >= 0) {
